@@ -199,6 +199,7 @@ def r1(ck, F):
         else:
             ck.bad("C05.R1", "Clear: releases the parent reference iff one was held", where(cl.raw["sp"]),
                    locals().get("conv") or "expected exactly one try_close(parent) on the Some edge of self.parent.take()", fn=cl.path)
+        clear_resets_slot(ck, F, "C05.R1")
 
 
 def r2(ck, F, rid="C05.R2"):
@@ -476,3 +477,33 @@ def r5(ck, F, rid="C05.R5"):
 
 def short(p):
     return p.replace("tracing_subscriber::registry::sharded::", "").replace("tracing_core::collect::", "")
+
+
+def clear_resets_slot(ck, F, rid):
+    """`afterwards the span is gone`: the pooled slot is handed to the next span as it is. On every returning path of
+    Clear::clear the extension map is emptied and the per-filter map reset -- whatever else is going on (unwinding
+    included): a slot that keeps its extensions gives the next span on that thread the dead span's formatted fields."""
+    cl = F.body("<%s as sharded_slab::clear::Clear>::clear" % DI)
+    if cl is None:
+        return
+    key = "Clear: the slot's extensions are emptied and its filter map reset on every path"
+    bad = []
+    n = 0
+    for pth in PathEval(cl).run():
+        if pth.end != "return":
+            continue
+        n += 1
+        emptied = any(c[1].get("method") == "clear" and "Extensions" in (c[1].get("path") or "") + str(c[1].get("full")) for c in pth.calls) or \
+            any(c[1].get("method") == "clear" for c in pth.calls)
+        reset = False
+        for bb in pth.blocks:
+            for st in cl.blocks[bb]["stmts"]:
+                if st["k"] == "assign" and any(isinstance(x, dict) and x.get("n") == "filter_map" for x in st["lhs"].get("p", [])):
+                    reset = True
+        if not (emptied and reset):
+            bad.append([(show(c[0])[:40], c[1]) for c in pth.conds][-2:])
+    if n and not bad:
+        ck.ok(rid, key, fn=cl.path)
+    else:
+        ck.bad(rid, key, where(cl.raw["sp"]), "%d path(s) return with the extensions or the filter map left as they were (conditions %s): the next span that gets the slot "
+               "starts with the dead span's data" % (len(bad), bad[:2]), fn=cl.path)
